@@ -36,7 +36,11 @@ interface render {
   paint: func(c: borrow<canvas>, s: shape, col: color) -> tuple<u8, u8>;
   fresh: func() -> canvas;
 }
+interface errs { variant error { a, b(string) } }
+interface ia { use errs.{error}; f: func() -> result<u8, error>; }
+interface ib { record error { code: u32, text: string } g: func() -> result<u8, error>; }
 world producer { export shapes; }
+world multi { import ia; import ib; import shapes; export go: func() -> u8; }
 world consumer { import shapes; export render; }
 world app { import render; import shapes; export run: func() -> result<_, string>; }
 "#;
@@ -56,6 +60,7 @@ fn validate(bytes: &[u8]) -> Result<(), String> {
 
 fn main() {
     let (producer, consumer, app) = (component("producer"), component("consumer"), component("app"));
+    let multi = component("multi");
     let shaped = wat::parse_str(r#"(component (import "n" (func (param "x" (list u8)) (result (option string)))) (core module $m (func (export "f"))) (core instance $i (instantiate $m)) (func $f (canon lift (core func $i "f"))) (export "f" (func $f)))"#).unwrap();
     let shapes = "lib:types/shapes@1.0.0"; let render = "lib:types/render@1.0.0";
     let (mut outputs, mut rejected) = (0u64, 0u64);
@@ -111,6 +116,9 @@ fn main() {
         "package test:doc;\nlet c = new t:consumer { ... };\nlet a = new t:app { render: c.render, ... };\nexport a...;\nexport c...;\n",
         "package test:doc;\nlet p = new t:producer { };\nlet c1 = new t:consumer { shapes: p.shapes };\nlet c2 = new t:consumer { shapes: p.shapes };\nexport c1.render;\nexport c2.render as second;\nexport p.shapes;\n",
         "package test:doc;\nlet p = new t:producer { };\nlet c1 = new t:consumer { shapes: p.shapes };\nexport p.shapes;\nexport c1.render;\n",
+        // sibling interfaces: one `use`s a type named `error`, a later one defines its own, different `error`
+        "package test:doc;\nlet m = new t:multi { ... };\nexport m.go;\n",
+        "package test:doc;\nlet p = new t:producer { };\nlet m = new t:multi { shapes: p.shapes, ... };\nlet a = new t:app { ... };\nexport m.go;\nexport a.run;\n",
         "package test:doc;\nimport s: lib:types/shapes@1.0.0;\nlet c = new t:consumer { shapes: s };\nlet a = new t:app { ...c, shapes: s };\nexport a.run as go;\n",
         "package test:doc;\ninterface mine { use lib:types/shapes@1.0.0.{shape, point}; area2: func(s: shape, p: list<point>) -> result<u64>; }\nimport m: mine;\nlet a = new t:app { ... };\nexport a.run;\n",
     ];
@@ -124,6 +132,7 @@ fn main() {
         packages.insert(BorrowedPackageKey::from_name_and_version("t:producer", None), producer.clone());
         packages.insert(BorrowedPackageKey::from_name_and_version("t:consumer", None), consumer.clone());
         packages.insert(BorrowedPackageKey::from_name_and_version("t:app", None), app.clone());
+        packages.insert(BorrowedPackageKey::from_name_and_version("t:multi", None), multi.clone());
         packages.insert(BorrowedPackageKey::from_name_and_version("lib:types", Some(&v100)), witb.clone());
         let res = match doc.resolve(packages) { Ok(r) => r, Err(e) => { println!("C01-VALID document #{di} does not resolve ({e}); generator problem\n{src}"); std::process::exit(2); } };
         for define in [true, false] { for val in [true, false] {
